@@ -37,3 +37,17 @@ Proof. split; vm_compute; reflexivity. Qed.
 Example compute_dependent_option_refuted :
   opt_independent_of_compute ("default", "n_power_iter", "4 if solver_kwargs['compute'] else 0") = false.
 Proof. vm_compute. reflexivity. Qed.
+
+(* the two constructors, statement by statement: n_modes reaches the variance test as the user gave it (an integral float such as 1.0
+   is a fraction, not a count), and is stored unchanged *)
+Lemma init_statements_known :
+  dec_init_statements =
+  ["sanity_check_n_modes(n_modes)"; "self.is_based_on_variance = False if isinstance(n_modes, int) else True"; "if self.is_based_on_variance:";
+   "self.n_modes = n_modes"; "self.n_modes_precompute = n_modes"; "self.init_rank_reduction = init_rank_reduction"; "self.flip_signs = flip_signs";
+   "self.compute = compute"; "self.solver = solver"; "self.random_state = random_state"; "self.component_dim_name = component_dim_name";
+   "self.solver_kwargs = solver_kwargs"] /\
+  svd_init_statements =
+  ["sanity_check_n_modes(n_modes)"; "self.is_based_on_variance = True if isinstance(n_modes, float) else False"; "if self.is_based_on_variance:";
+   "self.n_modes = n_modes"; "self.n_modes_precompute = n_modes"; "self.init_rank_reduction = init_rank_reduction"; "self.flip_signs = flip_signs";
+   "self.solver = solver"; "self.random_state = random_state"; "self.solver_kwargs = solver_kwargs"; "self.is_complex = is_complex"].
+Proof. split; reflexivity. Qed.
